@@ -318,7 +318,8 @@
          (count2 (+ count (hash-table-ref/default ht element 0))))
     (if (positive? count2)
         (hash-table-set! ht element count2)
-        (hash-table-delete! ht element))))
+        (hash-table-delete! ht element))
+    bag))
 
 (define (bag-decrement! bag element count)
   (bag-increment! bag element (- count)))
